@@ -100,6 +100,65 @@ def image_set_order(fmt, obj):
     return [[o.path for o in obj.images[v][a]] for v in sorted(obj.images) for a in sorted(obj.images[v])]
 
 
+def modify(fmt, obj, D):
+    """One legitimate content modification, applied identically to an object that was dumped before and to a fresh one."""
+    if fmt == "treeinfo":
+        obj.tree.arch = "s390x" if obj.tree.arch != "s390x" else "ppc64le"
+        obj.tree.build_timestamp = 77
+    elif fmt == "composeinfo":
+        obj.release.version = "99"
+        obj.compose.respin = 5
+        for v in sorted(obj.variants.variants.values(), key=lambda x: x.uid):
+            if not v.variants and len(v.arches) > 1:
+                v.arches = set(sorted(v.arches)[1:])
+                break
+    elif fmt == "discinfo":
+        obj.arch = "riscv64"
+        obj.disc_numbers = [3, 1]
+    else:
+        obj.compose.respin = 5
+        obj.compose.label = "RC-9.9"
+        obj.compose.final = True
+        if fmt == "images":
+            for v in sorted(obj.images):
+                for a in sorted(obj.images[v]):
+                    for o in sorted(obj.images[v][a], key=lambda x: x.path)[:1]:
+                        o.mtime = 424242
+                        o.bootable = not o.bootable
+                    return
+
+
+def check_dump_history(ctx, pms, fmt, D, case, seed_a, seed_b):
+    """Bytes do not depend on how often the object was dumped before: dump, modify, dump again == fresh, modify, dump."""
+    try:
+        used = formats.build(pms, fmt, D, seed_a)
+        used.dumps()
+        used.dumps()
+        fresh = formats.build(pms, fmt, D, seed_b)
+        modify(fmt, used, D)
+        modify(fmt, fresh, D)
+        try:
+            t_used = used.dumps()
+        except Exception as e:
+            t_used = "raised %s" % type(e).__name__
+        try:
+            t_fresh = fresh.dumps()
+        except Exception as e:
+            t_fresh = "raised %s" % type(e).__name__
+    except Exception as e:
+        ctx.note_add("dump_history_case_skipped")
+        return
+    bad = t_used != t_fresh
+    ctx.monitor("independent-of-earlier-dumps", fired=bad)
+    if bad:
+        i = 0
+        while i < min(len(t_used), len(t_fresh)) and t_used[i] == t_fresh[i]:
+            i += 1
+        ctx.violation("independent-of-earlier-dumps", "the bytes do not depend on how often the object was dumped before: an object "
+                      "dumped, then modified, writes what a fresh object with the same modification writes", case,
+                      observed=t_used[max(0, i - 80):i + 80], expected=t_fresh[max(0, i - 80):i + 80])
+
+
 def check_text_form(ctx, fmt, textout, case):
     if fmt in ("composeinfo", "images", "rpms", "modules", "extra_files"):
         try:
@@ -188,6 +247,7 @@ def run_shard(ctx):
         if failed:
             ctx.case_done({"c": i, "s": ctx.shard}, nontrivial=False)
             continue
+        check_dump_history(ctx, pms, fmt, D, case, hash_free_int("%s/a/%s" % (ctx.shard, i)), hash_free_int("%s/b/%s" % (ctx.shard, i)))
         bad = len(set(dset)) != 1
         ctx.monitor("same-process-digests-equal", fired=bad)
         if bad:
